@@ -143,8 +143,8 @@ func (q *Queue[T]) release(prev *T) {
 		i = max(min(i, len(q.queued)-1), 0)
 	}
 	// release queued entry, move to active list, and remove from queued/wait lists
-	close(*q.wait[i])
 	vpEventU("promote", q, q.queued[i])
+	close(*q.wait[i])
 	q.active = append(q.active, q.queued[i])
 	q.queued = slices.Delete(q.queued, i, i+1)
 	q.wait = slices.Delete(q.wait, i, i+1)
